@@ -6,6 +6,7 @@
 package rtmp
 
 import (
+	"bufio"
 	"bytes"
 	"fmt"
 	"io"
@@ -13,6 +14,7 @@ import (
 	"reflect"
 	"sort"
 	"testing"
+	"unsafe"
 
 	"github.com/ossrs/go-oryx-lib/amf0"
 	oe "github.com/ossrs/go-oryx-lib/errors"
@@ -226,64 +228,120 @@ func vC03BuildObject(n *vC03Node) *amf0.Object {
 	return o
 }
 
-// canonical dump of a library value; the property lists are unexported in package amf0 and
-// are read through reflection (read-only)
-func vC03DumpV(v reflect.Value) *vC03Node {
-	for v.Kind() == reflect.Interface {
-		if v.IsNil() {
-			return nil
+// canonical dump of a library value WITHOUT touching unexported state: the value's own
+// MarshalBinary bytes, parsed by a reference decoder of the library's AMF0 layout written here
+// (number 00 + 8, boolean 01 + 1, string 02 + u16 + bytes, object 03 + pairs + 00 00 09, null 05,
+// undefined 06, ECMA array 08 + u32 count + pairs + 00 00 09, strict array 0a + u32 count +
+// count keyed pairs).  Bytes that do not parse completely make the run void (panic: a broken
+// tie), never a verdict.
+func vC03ParseAmf(p []byte) (n *vC03Node, rest []byte, ok bool) {
+	if len(p) < 1 {
+		return nil, nil, false
+	}
+	str := func(q []byte) (s, r []byte, ok bool) {
+		if len(q) < 2 {
+			return nil, nil, false
 		}
-		v = v.Elem()
-	}
-	if v.Kind() != reflect.Ptr {
-		return &vC03Node{kind: -1}
-	}
-	if v.IsNil() {
-		return nil
-	}
-	e := v.Elem()
-	props := func() []vC03Prop {
-		ps := e.FieldByName("properties")
-		out := []vC03Prop{}
-		for i := 0; i < ps.Len(); i++ {
-			p := ps.Index(i).Elem()
-			out = append(out, vC03Prop{key: []byte(p.FieldByName("key").String()), val: vC03DumpV(p.FieldByName("value"))})
+		l := int(q[0])<<8 | int(q[1])
+		if len(q) < 2+l {
+			return nil, nil, false
 		}
-		return out
+		return q[2 : 2+l], q[2+l:], true
 	}
-	switch e.Type().Name() {
-	case "Number":
-		return &vC03Node{kind: 0, bits: math.Float64bits(e.Float())}
-	case "Boolean":
-		return &vC03Node{kind: 1, b: e.Bool()}
-	case "String":
-		return &vC03Node{kind: 2, s: []byte(e.String())}
-	case "null":
-		return &vC03Node{kind: 5}
-	case "undefined":
-		return &vC03Node{kind: 6}
-	case "Object":
-		return &vC03Node{kind: 3, props: props()}
-	case "EcmaArray":
-		return &vC03Node{kind: 8, count: uint32(e.FieldByName("count").Uint()), props: props()}
-	case "StrictArray":
-		return &vC03Node{kind: 10, props: props()}
+	pairs := func(q []byte, count int) (ps []vC03Prop, r []byte, ok bool) {
+		ps = []vC03Prop{}
+		for i := 0; count < 0 || i < count; i++ {
+			k, q1, ok := str(q)
+			if !ok {
+				return nil, nil, false
+			}
+			if count < 0 && len(k) == 0 && len(q1) >= 1 && q1[0] == 9 {
+				return ps, q1[1:], true
+			}
+			v, q2, ok := vC03ParseAmf(q1)
+			if !ok {
+				return nil, nil, false
+			}
+			ps = append(ps, vC03Prop{key: append([]byte{}, k...), val: v})
+			q = q2
+		}
+		return ps, q, true
 	}
-	return &vC03Node{kind: -1}
+	switch p[0] {
+	case 0:
+		if len(p) < 9 {
+			return nil, nil, false
+		}
+		var bits uint64
+		for i := 1; i <= 8; i++ {
+			bits = bits<<8 | uint64(p[i])
+		}
+		return &vC03Node{kind: 0, bits: bits}, p[9:], true
+	case 1:
+		if len(p) < 2 {
+			return nil, nil, false
+		}
+		return &vC03Node{kind: 1, b: p[1] != 0}, p[2:], true
+	case 2:
+		sv, r, ok := str(p[1:])
+		if !ok {
+			return nil, nil, false
+		}
+		return &vC03Node{kind: 2, s: append([]byte{}, sv...)}, r, true
+	case 3:
+		ps, r, ok := pairs(p[1:], -1)
+		if !ok {
+			return nil, nil, false
+		}
+		return &vC03Node{kind: 3, props: ps}, r, true
+	case 5:
+		return &vC03Node{kind: 5}, p[1:], true
+	case 6:
+		return &vC03Node{kind: 6}, p[1:], true
+	case 8, 10:
+		if len(p) < 5 {
+			return nil, nil, false
+		}
+		c := uint32(p[1])<<24 | uint32(p[2])<<16 | uint32(p[3])<<8 | uint32(p[4])
+		if p[0] == 8 {
+			ps, r, ok := pairs(p[5:], -1)
+			if !ok {
+				return nil, nil, false
+			}
+			return &vC03Node{kind: 8, count: c, props: ps}, r, true
+		}
+		ps, r, ok := pairs(p[5:], int(c))
+		if !ok {
+			return nil, nil, false
+		}
+		return &vC03Node{kind: 10, props: ps}, r, true
+	}
+	return nil, nil, false
 }
 
 func vC03Dump(a amf0.Amf0) *vC03Node {
 	if a == nil {
 		return nil
 	}
-	return vC03DumpV(reflect.ValueOf(a))
+	if v := reflect.ValueOf(a); v.Kind() == reflect.Ptr && v.IsNil() {
+		return nil
+	}
+	b, err := a.MarshalBinary()
+	if err != nil {
+		panic("cannot observe an amf0 value: MarshalBinary failed: " + err.Error())
+	}
+	n, rest, ok := vC03ParseAmf(b)
+	if !ok || len(rest) != 0 {
+		panic(fmt.Sprintf("cannot observe an amf0 value: its bytes %x are not one AMF0 value", b))
+	}
+	return n
 }
 
 func vC03DumpObject(o *amf0.Object) *vC03Node {
 	if o == nil {
 		return nil
 	}
-	return vC03DumpV(reflect.ValueOf(o))
+	return vC03Dump(o)
 }
 
 // ---------------------------------------------------------------- packets
@@ -1089,9 +1147,7 @@ func vC03RunConv(c vSx, res *vC03Res) {
 			if p.kind >= 7 {
 				wantCid = 2
 			}
-			if !vC03HeaderObservable {
-				// the header fields were renamed: this check is not made (counted in the statistics)
-			} else if gs, gc := vC03MsgField(m, "streamID"), vC03MsgField(m, "betterCid"); gs != uint64(uint32(sid)) || gc != wantCid || m.Timestamp != 0 {
+			if gs, gc := vC03MsgField(m, vC03SidPath), vC03MsgField(m, vC03CidPath); gs != uint64(uint32(sid)) || gc != wantCid || m.Timestamp != 0 {
 				res.bad("wire", fmt.Sprintf("burst %d packet %d: arrived on stream %d chunk stream %d timestamp %d, written for stream %d chunk stream %d", bi, j, gs, gc, m.Timestamp, uint32(sid), wantCid))
 			}
 			pk, err, pan := vC03Decode(rcv, m.MessageType, m.Payload)
@@ -1476,49 +1532,73 @@ func vC03CmpTable(p *Protocol, a *vC03Abs) string {
 	return ""
 }
 
-// bytes the endpoint's reader has taken from the transport but not yet consumed (field r, any
-// type with a Buffered method)
-func vC03Buffered(p *Protocol) int {
-	f := reflect.ValueOf(p).Elem().FieldByName("r")
-	if !f.IsValid() {
-		return 0
+// bytes the endpoint's reader has taken from the transport but not yet consumed: the field of
+// Protocol whose TYPE is *bufio.Reader (index resolved once; absent = the run is void)
+var vC03ReaderField = -1
+
+func vC03FindReader() bool {
+	t := reflect.TypeOf(Protocol{})
+	want := reflect.TypeOf((*bufio.Reader)(nil))
+	n := 0
+	for i := 0; i < t.NumField(); i++ {
+		if t.Field(i).Type == want {
+			vC03ReaderField = i
+			n++
+		}
 	}
-	mth := f.MethodByName("Buffered")
-	if !mth.IsValid() {
-		return 0
-	}
-	defer func() { recover() }()
-	return int(mth.Call(nil)[0].Int())
+	return n == 1
 }
 
-// whether the stream id / chunk stream id of a message can be read (by field name; checked once
-// on a probe message whose values are known)
-var vC03HeaderObservable bool
+func vC03Buffered(p *Protocol) int {
+	f := reflect.ValueOf(p).Elem().Field(vC03ReaderField)
+	r := reflect.NewAt(f.Type(), unsafe.Pointer(f.UnsafeAddr())).Elem().Interface().(*bufio.Reader)
+	return r.Buffered()
+}
+
+// the stream id and the chunk stream id of a message: the numeric fields of Message (embedded
+// header included) found by PROBING -- NewStreamMessage(0x01020304) holds the stream id in exactly
+// one of them and the chunk stream id for messages over a stream (5) in exactly one other
+var vC03SidPath, vC03CidPath []int
+
+func vC03NumFields(v reflect.Value, path []int, f func(p []int, x uint64)) {
+	for i := 0; i < v.NumField(); i++ {
+		fv := v.Field(i)
+		p := append(append([]int{}, path...), i)
+		switch fv.Kind() {
+		case reflect.Int, reflect.Int8, reflect.Int16, reflect.Int32, reflect.Int64:
+			f(p, uint64(fv.Int()))
+		case reflect.Uint, reflect.Uint8, reflect.Uint16, reflect.Uint32, reflect.Uint64:
+			f(p, fv.Uint())
+		case reflect.Struct:
+			vC03NumFields(fv, p, f)
+		}
+	}
+}
 
 func vC03ProbeHeader() bool {
-	defer func() { recover() }()
-	m := NewStreamMessage(7)
-	mv := reflect.ValueOf(m).Elem()
-	a, b := mv.FieldByName("streamID"), mv.FieldByName("betterCid")
-	if !a.IsValid() || !b.IsValid() {
-		return false
-	}
-	return vC03MsgField(m, "streamID") == 7 && vC03MsgField(m, "betterCid") == 5
+	m := NewStreamMessage(0x01020304)
+	ns, nc := 0, 0
+	vC03NumFields(reflect.ValueOf(m).Elem(), nil, func(p []int, x uint64) {
+		switch x {
+		case 0x01020304:
+			vC03SidPath, ns = p, ns+1
+		case 5:
+			vC03CidPath, nc = p, nc+1
+		}
+	})
+	return ns == 1 && nc == 1
 }
 
-// integer value of an unexported numeric field of a message, by name
-func vC03MsgField(m *Message, name string) uint64 {
-	f := reflect.ValueOf(m).Elem().FieldByName(name)
-	if !f.IsValid() {
-		panic("cannot observe the message field " + name)
+func vC03MsgField(m *Message, path []int) uint64 {
+	v := reflect.ValueOf(m).Elem()
+	for _, i := range path {
+		v = v.Field(i)
 	}
-	switch f.Kind() {
+	switch v.Kind() {
 	case reflect.Int, reflect.Int8, reflect.Int16, reflect.Int32, reflect.Int64:
-		return uint64(f.Int())
-	case reflect.Uint, reflect.Uint8, reflect.Uint16, reflect.Uint32, reflect.Uint64:
-		return f.Uint()
+		return uint64(v.Int())
 	}
-	return math.MaxUint64
+	return v.Uint()
 }
 
 // write the messages of a case on endpoint b; returns (type, payload, packet or nil) per message
@@ -2850,8 +2930,12 @@ func TestVerifC03(t *testing.T) {
 	if vC03TablePath, why = vC03FindTable(); why != "" {
 		t.Fatalf("cannot observe the transaction table: %s", why)
 	}
-	vC03HeaderObservable = vC03ProbeHeader()
-	k.count("observe", fmt.Sprintf("message-header-fields=%v", vC03HeaderObservable))
+	if !vC03ProbeHeader() {
+		t.Fatalf("cannot observe the stream id / chunk stream id of a message")
+	}
+	if !vC03FindReader() {
+		t.Fatalf("cannot observe the endpoint's buffered reader")
+	}
 	runOne := func(c vSx) {
 		res := vC03Run(c)
 		idx := k.record(c, res.obs, res.nontrivial)
